@@ -7,7 +7,7 @@ verus! {
 
 /// 2^130 - 5
 pub open spec fn poly_p() -> nat {
-    (0x4_0000_0000_0000_0000_0000_0000_0000_0000nat * 4 - 5) as nat
+    (0x4_0000_0000_0000_0000_0000_0000_0000_0000nat - 5) as nat
 }
 
 /// r = le(key[0..16]) clamped (RFC 8439 §2.5: clear top 4 bits of bytes 3,7,11,15 and low 2 bits of bytes 4,8,12)
